@@ -1828,6 +1828,61 @@ def render_schemapred() -> str:
     return "\n".join(lines)
 
 
+# ---------------------------------------------------------------------------------------------
+# pins: functions that are modelled by hand (typehint resolution, validate_signature, schema generation for validators)
+# -> lean/KodaModel/Generated/PinsSrc.lean, one string per top-level statement
+
+OUT_PINS = os.path.join(os.path.dirname(OUT), "PinsSrc.lean")
+PIN_GROUPS = {
+    "typehintPins": ("typehints.py", None),
+    "signaturePins": ("signature.py", ["resolve_signature_typehint_default", "_get_validator", "_wrap_fn", "validate_signature"]),
+    "schemaValidatorPins": ("serialization/json_schema.py",
+                            ["get_base", "string_schema", "bytes_schema", "integer_schema", "decimal_schema", "float_schema",
+                             "date_schema", "datetime_schema", "equals_schema", "boolean_schema", "uuid_schema",
+                             "array_of_schema", "obj_schema", "dict_validator_schema", "dataclass_validator_schema",
+                             "namedtuple_validator_schema", "typeddict_validator_schema", "map_of_schema",
+                             "generate_schema_validator", "generate_schema_base", "generate_named_schema_base",
+                             "to_named_json_schema", "to_json_schema"]),
+}
+
+
+def _is_overload(f: ast.FunctionDef) -> bool:
+    return any(ast.unparse(d) in ("overload", "typing.overload") for d in f.decorator_list)
+
+
+def collect_pins(group: str) -> List[str]:
+    fn, names = PIN_GROUPS[group]
+    tree = ast.parse(open(os.path.join(PKG, fn)).read())
+    fns = [n for n in tree.body if isinstance(n, (ast.FunctionDef, ast.AsyncFunctionDef)) and not _is_overload(n)]
+    out: List[str] = []
+    for want in (names if names is not None else [f.name for f in fns]):
+        hits = [f for f in fns if f.name == want]
+        if len(hits) != 1:
+            out.append(f"{want}: <found {len(hits)} times>")
+            continue
+        f = hits[0]
+        out.append(f"{want}({ast.unparse(f.args)})" + "".join(" @" + ast.unparse(d) for d in f.decorator_list))
+        out += [f"{want}: " + ast.unparse(b) for b in f.body
+                if not (isinstance(b, ast.Expr) and isinstance(b.value, ast.Constant))]
+    if names is None:
+        # a whole module: module-level assignments count too (tables, aliases)
+        out += ["<module>: " + ast.unparse(b) for b in tree.body if isinstance(b, (ast.Assign, ast.AnnAssign))]
+    return out
+
+
+def lean_string_list(xs: List[str], indent: str = "  ") -> str:
+    return "[" + (",\n" + indent).join(lstr(x) for x in xs) + "]"
+
+
+def render_pins() -> str:
+    lines = ["/- GENERATED by harness/pysrc.py from the current source of /repo/koda_validate — do not edit -/", "",
+             "namespace Koda.Src", ""]
+    for group in PIN_GROUPS:
+        lines += [f"def {group} : List String := {lean_string_list(collect_pins(group))}", ""]
+    lines += ["end Koda.Src", ""]
+    return "\n".join(lines)
+
+
 def render() -> str:
     found = collect()
     lines = ["/- GENERATED by harness/pysrc.py from the current source of /repo/koda_validate — do not edit -/",
@@ -1846,7 +1901,7 @@ def render() -> str:
 
 def regenerate() -> bool:
     changed = False
-    for path, new in ((OUT, render()), (OUT_COERCE, render_coerce()), (OUT_SCALAR, render_scalar()), (OUT_UNION, render_union()), (OUT_LIST, render_list()), (OUT_WRAP, render_wrap()), (OUT_EQ, render_eq()), (OUT_CACHE, render_cache()), (OUT_SEQ, render_seq()), (OUT_NTUPLE, render_ntuple()), (OUT_MAP, render_map()), (OUT_DICTANY, render_dictany()), (OUT_CONGR, render_congr()), (OUT_RENDER, render_render()), (OUT_SCHEMAPRED, render_schemapred())):
+    for path, new in ((OUT, render()), (OUT_COERCE, render_coerce()), (OUT_SCALAR, render_scalar()), (OUT_UNION, render_union()), (OUT_LIST, render_list()), (OUT_WRAP, render_wrap()), (OUT_EQ, render_eq()), (OUT_CACHE, render_cache()), (OUT_SEQ, render_seq()), (OUT_NTUPLE, render_ntuple()), (OUT_MAP, render_map()), (OUT_DICTANY, render_dictany()), (OUT_CONGR, render_congr()), (OUT_RENDER, render_render()), (OUT_SCHEMAPRED, render_schemapred()), (OUT_PINS, render_pins())):
         old = open(path).read() if os.path.exists(path) else None
         if new != old:
             with open(path, "w") as f:
